@@ -490,8 +490,23 @@ func GetSegPerc(runningSegStat *structs.SegStats, currSegStat *structs.SegStats,
 		return &res, fmt.Errorf("GetSegPerc: percentile not between the valid range")
 	}
 
+	if currSegStat.TDigest == nil {
+		// No numeric value was recorded for this column in this segment (e.g. a string column),
+		// so there is nothing to merge.
+		if runningSegStat != nil && runningSegStat.TDigest != nil {
+			res.FloatVal = runningSegStat.TDigest.GetQuantile(fltPercentileVal)
+		}
+		return &res, nil
+	}
+
 	if runningSegStat == nil {
 		res.FloatVal = currSegStat.TDigest.GetQuantile(fltPercentileVal)
+		return &res, nil
+	}
+
+	if runningSegStat.TDigest == nil {
+		runningSegStat.TDigest = currSegStat.TDigest
+		res.FloatVal = runningSegStat.TDigest.GetQuantile(fltPercentileVal)
 		return &res, nil
 	}
 
